@@ -89,12 +89,29 @@ def run(chk):
         if base.get("path") != "lut::Lut":
             continue
         label = "<Esop as %s>::from" % tr["s"]
-        for n in range(0, (3 if chk.tier == "quick" else 4)):
-            key = "%s n=%d" % (label, n)
+        cases = [(n, None) for n in range(0, (3 if chk.tier == "quick" else 4))]
+        # larger tables (several 64-bit blocks): a few symbolic table bits at a time, the others 0.  Positions with at
+        # most two 0 bits in their index (few supersets -> short runs), plus dense ones (bit 0: every cube is emitted)
+        for n in range(3, (9 if chk.tier == "quick" else 11)):
+            full_ = (1 << n) - 1
+            sparse = sorted({full_ & ~((1 << x) | (1 << y)) for x in range(n) for y in range(n)} | {full_})
+            for k_ in range(0, len(sparse), 3):
+                cases.append((n, tuple(sparse[k_:k_ + 3])))
+            if n <= (8 if chk.tier == "quick" else 9):
+                cases.append((n, (0,)))
+                cases.append((n, (5 & full_, 1 << (n - 1))))
+        for n, window in cases:
+            key = "%s n=%d" % (label, n) if window is None else "%s n=%d table bits %s symbolic, others 0" % (label, n, list(window))
             try:
-                it = Interp(facts, max_paths=1024, max_steps=50000000)
+                it = Interp(facts, max_paths=1024, max_steps=500000000)
                 st = State()
-                lut = KD.mk(st, n, sym_words(n, "a"))
+                if window is None:
+                    words, support = sym_words(n, "a"), list(range(1 << n))
+                else:
+                    it.prune = True
+                    support = list(window)
+                    words = [W(64, bits=[B.atom("a[%d]" % (w_ * 64 + p_)) if (w_ * 64 + p_) in window else ZERO for p_ in range(64)]) for w_ in range(table_words(n))]
+                lut = KD.mk(st, n, words)
                 outs = it.call_body(bd, [arg_for(bd["sig"]["inputs"][0], lut, st)], st, {})
                 v, d = PROVED, ""
                 npaths = 0
@@ -132,7 +149,7 @@ def run(chk):
                         v, d = REFUTED, "result has num_vars %s" % C.num_vars(o.value).val
                         break
                     # algebraic normal form of the function on this path
-                    f = [w_.get("a[%d]" % p, 0) for p in range(1 << n)]
+                    f = [w_.get("a[%d]" % p, 0) if p in support else 0 for p in range(1 << n)]
                     want = []
                     for S_ in range(1 << n):
                         c = 0
@@ -142,15 +159,16 @@ def run(chk):
                         if c:
                             want.append(S_)
                     # the path condition may leave bits free only if they do not matter; check it pins f
-                    free = [p for p in range(1 << n) if "a[%d]" % p not in w_]
+                    free = [p for p in support if "a[%d]" % p not in w_]
                     if free:
                         v, d = UNDECIDED, "path does not determine the function"
                         break
                     if sorted(masks) != want:
-                        v, d = REFUTED, "for the function %s the emitted cubes are %s, the Reed-Muller form is %s" % (f, masks, want)
+                        fd = f if n <= 3 else "with true assignments %s" % [p for p in range(1 << n) if f[p]]
+                        v, d = REFUTED, "for the function %s the emitted cubes are %s, the Reed-Muller form is %s" % (fd, masks[:12], want[:12])
                         break
-                if v == PROVED and npaths != 1 << (1 << n):
-                    v, d = UNDECIDED, "%d paths for %d functions" % (npaths, 1 << (1 << n))
+                if v == PROVED and npaths != 1 << len(support):
+                    v, d = UNDECIDED, "%d paths for %d functions" % (npaths, 1 << len(support))
             except Undecided as ex:
                 v, d = UNDECIDED, ex.cause
-            chk.add("C15.M", key, v, d, where=where_of(bd), sample=dict(obligation=key, paths=npaths if v == PROVED else None, verdict=v))
+            chk.add("C15.M", key, v, d, where=where_of(bd), sample=dict(obligation=key, paths=npaths if v == PROVED else None, verdict=v) if window is None else None)
